@@ -21,6 +21,9 @@ type c20YieldStore struct {
 	e     *Env
 	inner limiter.Store
 	calls map[string]int
+	// honourCtx: like a store that talks to a server, a call made with a context that is over fails with the
+	// context's error (and returns the zero limiter.Context)
+	honourCtx bool
 }
 
 func (s *c20YieldStore) step(what string) {
@@ -31,21 +34,33 @@ func (s *c20YieldStore) step(what string) {
 
 func (s *c20YieldStore) Get(ctx context.Context, key string, rate limiter.Rate) (limiter.Context, error) {
 	s.step("Get")
+	if s.honourCtx && ctx.Err() != nil {
+		return limiter.Context{}, ctx.Err()
+	}
 	return s.inner.Get(ctx, key, rate)
 }
 
 func (s *c20YieldStore) Peek(ctx context.Context, key string, rate limiter.Rate) (limiter.Context, error) {
 	s.step("Peek")
+	if s.honourCtx && ctx.Err() != nil {
+		return limiter.Context{}, ctx.Err()
+	}
 	return s.inner.Peek(ctx, key, rate)
 }
 
 func (s *c20YieldStore) Reset(ctx context.Context, key string, rate limiter.Rate) (limiter.Context, error) {
 	s.step("Reset")
+	if s.honourCtx && ctx.Err() != nil {
+		return limiter.Context{}, ctx.Err()
+	}
 	return s.inner.Reset(ctx, key, rate)
 }
 
 func (s *c20YieldStore) Increment(ctx context.Context, key string, count int64, rate limiter.Rate) (limiter.Context, error) {
 	s.step("Increment")
+	if s.honourCtx && ctx.Err() != nil {
+		return limiter.Context{}, ctx.Err()
+	}
 	return s.inner.Increment(ctx, key, count, rate)
 }
 
@@ -60,6 +75,15 @@ func init() {
 			sc.SetInt("subs", g.Range(2, 4))
 			sc.SetInt("items", g.Range(1, 2)) // items per subscriber, all of the same key
 			sc.SetInt("samepipe", g.Intn(2))  // 1: overlapping subscriptions of ONE limited observable
+			if g.Bool(0.3) {
+				// one subscriber; from item #deadfrom on the items travel with a context that is already over
+				// and the store refuses them: the store's failure ends the stream, nothing passes uncounted
+				sc.SetInt("deadfrom", g.Range(0, 3))
+				sc.SetInt("subs", 1)
+				sc.SetInt("items", g.Range(2, 6))
+			} else {
+				sc.SetInt("deadfrom", -1)
+			}
 			return sc
 		},
 		Run: func(e *Env) {
@@ -68,12 +92,49 @@ func init() {
 			if quota < 1 || nsubs < 1 || items < 1 {
 				panic("C20.shared: illegal scenario")
 			}
-			store := &c20YieldStore{e: e, inner: memory.NewStoreWithOptions(limiter.StoreOptions{Prefix: "c20s", CleanUpInterval: 0}), calls: map[string]int{}}
+			deadFrom := sc.Int("deadfrom", -1)
+			store := &c20YieldStore{e: e, inner: memory.NewStoreWithOptions(limiter.StoreOptions{Prefix: "c20s", CleanUpInterval: 0}), calls: map[string]int{}, honourCtx: deadFrom >= 0}
 			l := limiter.New(store, limiter.Rate{Period: time.Hour, Limit: int64(quota)})
 			limit := rlulule.NewRateLimiter[int](l, func(int) string { return "tenant-1" })
 			var vals []int
 			for i := 0; i < items; i++ {
 				vals = append(vals, i+1)
+			}
+			if deadFrom >= 0 {
+				dead, cancel := context.WithCancel(context.Background())
+				cancel()
+				in := ro.ContextMapI[int](func(ctx context.Context, i int64) context.Context {
+					if int(i) >= deadFrom {
+						return dead
+					}
+					return ctx
+				})(ro.Just(vals...))
+				rec := e.NewRec("s")
+				e.Go("subscriber", func() { limit(in).Subscribe(rec.Observer()) })
+				e.SettleFor(10 * Unit)
+				if e.K.Capped() {
+					return
+				}
+				passed := len(rec.Values())
+				want := deadFrom
+				if want > items {
+					want = items
+				}
+				if want > quota {
+					want = quota
+				}
+				wantTerm := byte('E')
+				if deadFrom >= items {
+					wantTerm = 'C'
+				}
+				if passed != want || rec.Terminal() != wantTerm {
+					clause := "quota"
+					if passed <= quota {
+						clause = "wrong-terminal"
+					}
+					e.Violate("C20", clause, fmt.Sprintf("ulule limiter (quota %d per hour) over %d items of one key, the items from #%d on carrying a context that is over, the store refusing calls made with such a context: %d items passed and the stream ended with %q; %d may pass and the stream ends with %q (the store's failure is an error of the stream, no item passes uncounted): %s", quota, items, deadFrom, passed, string(rec.Terminal()), want, string(wantTerm), rec.Trace()))
+				}
+				return
 			}
 			shared := limit(ro.Just(vals...))
 			recs := make([]*Rec, nsubs)
